@@ -325,6 +325,8 @@ impl PackageBuilder {
     }
 
     pub fn add_element(&mut self, aml: &dyn Aml) {
+        // NumElements is a single byte.
+        assert!(self.elements < u8::MAX as usize);
         aml.to_aml_bytes(self);
         self.elements += 1;
     }
